@@ -29,9 +29,13 @@ class Potential_Form_Registry(object):
        :param register_pymath_functions: If `True` make functions from the python math module available in cexprtk expressions."""
 
     self._potential_forms = {}
+    # Labels of the standard forms that are only registered at the end of this method (see _register_from_potentialforms()),
+    # a [Table-Form] section may not take one of these names either.
+    self._late_standard_names = set()
 
     if register_standard:
       self._potential_forms.update(self._register_standard())
+      self._late_standard_names = self._standard_names_from_potentialforms() - set(self._potential_forms)
 
     self._potential_forms.update(self._build_table_forms(cfg.table_form))
 
@@ -66,6 +70,10 @@ class Potential_Form_Registry(object):
       potential_forms[name] = pf
     return potential_forms
 
+  def _standard_names_from_potentialforms(self):
+    from .. import potentialforms
+    return set([self._make_standard_name(name) for name, _potential_form in inspect.getmembers(potentialforms, _iscallable)])
+
   def _register_from_potentialforms(self, potential_forms):
     from .. import potentialforms
     for name, potential_form in inspect.getmembers(potentialforms, _iscallable):
@@ -92,7 +100,7 @@ class Potential_Form_Registry(object):
     builder = Table_Form_Builder()
 
     for d in definitions:
-      if d.name in self._potential_forms or d.name in table_forms:
+      if d.name in self._potential_forms or d.name in table_forms or d.name in self._late_standard_names:
         raise Potential_Form_Registry_Exception("The name of a [Table-Form] section is already in use by another potential form: '{0}'".format(d.name))
 
       pf = builder.create_potential_form(d)
